@@ -145,7 +145,7 @@ impl Prop for C07Prop {
             let tag = if weighted { "w" } else { "h" };
             let orc = DistOracle::new(snap, !weighted);
             let heavy = algo::sigma_max(&orc) > 300.0;
-            let wp = !heavy;
+            let wp = !heavy && (!weighted || algo::comparable_scale(snap)); // absorbed light edges act as zero-weight edges: no finite path sets
             match run!("all_pairs", dijkstra::all_pairs(g, weighted, None, None, false, wp)) {
                 Ok(m) => {
                     let m = algo::sp2_conv(m);
@@ -268,7 +268,7 @@ impl Prop for C07Prop {
         out
     }
     fn rule(&self) -> String {
-        "graphs with 21-60 nodes of all 8 kinds (weighted / unweighted); all_pairs, multi_source (with target, first_only), get_all_shortest_paths_involving, betweenness_centrality (raw / normalized), closeness_centrality (plain / WF) evaluated once with a pool of 1 worker and under 6 (quick) / 9 (thorough) simulated pools of 2-16 workers - split tree, steals and leaf execution order drawn from the schedule seed, one third inside a caller-installed pool nested in a pool of another size - under the same hash keying; every key set, distance, path list (in order) and centrality compared by bit pattern with the single-threaded result. evaluations = cases; each case = 1 + k schedules. distinct_nontrivial = distinct (graph, set of schedule traces) in which a parallel job actually ran; one case in 400 is a dense graph (1-3 blocks, 60-300 nodes) with 2 100 - 12 500 stored edges under a pool of 2-16 workers (strategy thresholds); one case in 700 has 4 150 - 4 600 nodes with one or two hubs adjacent to more than 4 096 of them (node-count thresholds; centralities only); in a quarter of the cases searches that fail and valid searches that stop early at a target run first in every environment, and a distances-only all_pairs with every option off follows the target searches".into()
+        "graphs with 21-60 nodes of all 8 kinds (weighted / unweighted); all_pairs, multi_source (with target, first_only), get_all_shortest_paths_involving, betweenness_centrality (raw / normalized), closeness_centrality (plain / WF) evaluated once with a pool of 1 worker and under 6 (quick) / 9 (thorough) simulated pools of 2-16 workers - split tree, steals and leaf execution order drawn from the schedule seed, one third inside a caller-installed pool nested in a pool of another size - under the same hash keying; every key set, distance, path list (in order) and centrality compared by bit pattern with the single-threaded result. evaluations = cases; each case = 1 + k schedules. distinct_nontrivial = distinct (graph, set of schedule traces) in which a parallel job actually ran; one case in 400 is a dense graph (1-3 blocks, 60-300 nodes) with 2 100 - 12 500 stored edges under a pool of 2-16 workers (strategy thresholds); one case in 700 has 4 150 - 4 600 nodes with one or two hubs adjacent to more than 4 096 of them (node-count thresholds; centralities only); in a quarter of the cases searches that fail and valid searches that stop early at a target run first in every environment, and a distances-only all_pairs with every option off follows the target searches; in a third of the cases a battery of valid unjudged calls runs first on a sibling graph (same names and edges, other node order), in a fifth the graph is queried on the same object before its last one to three operations are applied (DESIGN.md 0.2)".into()
     }
     fn assumptions(&self) -> Vec<String> {
         vec![
